@@ -72,9 +72,12 @@ def run(ctx):
     base1 = {"version": "102", "ofxheader": "100", "data": "OFXSGML", "security": "NONE", "encoding": "USASCII",
              "charset": "1252", "compression": "NONE", "oldfileuid": "NONE", "newfileuid": "NONE"}
     base2 = {"version": "203", "ofxheader": "200", "security": "NONE", "oldfileuid": "NONE", "newfileuid": "NONE"}
-    dom = {"data": ["OFXSGML", "OFXXML", "ofxsgml"], "security": ["NONE", "TYPE1", "TYPE2"],
-           "encoding": ["USASCII", "UNICODE", "UTF-8", "UTF8", "LATIN1"], "charset": ["ISO-8859-1", "1252", "NONE", "UTF-8", "8859-1"],
-           "compression": ["NONE", "GZIP"], "ofxheader": ["100", "200", "101", "x", "0", "00", "000", "1", "99", "201", "0100", "0200"],
+    # (foreign tokens include proper fragments of the valid ones and tokens that are valid for ANOTHER field)
+    dom = {"data": ["OFXSGML", "OFXXML", "ofxsgml", "OFX", "SGML", "OFXSGM", "FXSGML", "S", "NONE", "USASCII"],
+           "security": ["NONE", "TYPE1", "TYPE2", "NON", "TYPE", "1", "OFXSGML", "USASCII"],
+           "encoding": ["USASCII", "UNICODE", "UTF-8", "UTF8", "LATIN1", "ASCII", "UNI", "U", "NONE", "1252"],
+           "charset": ["ISO-8859-1", "1252", "NONE", "UTF-8", "8859-1", "ISO", "125", "2", "USASCII", "UNICODE"],
+           "compression": ["NONE", "GZIP", "N", "NON", "ONE", "O", "USASCII", "TYPE1"], "ofxheader": ["100", "200", "101", "x", "0", "00", "000", "1", "99", "201", "0100", "0200"],
            "version": ["102", "103", "151", "160", "199", "100", "1020", "1x", "200", "203", "220", "204", "221", "2030", "0", "000", "0102"],
            "oldfileuid": ["NONE", "a" * 36, "a" * 37], "newfileuid": ["NONE", "z" * 36, "z" * 37]}
     for kind, base in ((1, base1), (2, base2)):
